@@ -35,7 +35,7 @@ def build(variant="asan"):
     if r.returncode != 0:
         raise InfraError("build of %s (%s) failed:\n%s" % (REPO, variant, r.stderr[-4000:]))
     log("[build] %s ok in %.1fs" % (variant, time.time() - t))
-    return os.path.join(ROOT, "build", variant)
+    return r.stdout.strip().split("\n")[-1]
 
 
 VT_WRAP = "-Wl,--wrap=clock_gettime,--wrap=gettimeofday,--wrap=epoll_pwait2,--wrap=epoll_wait,--wrap=poll,--wrap=select"
